@@ -201,6 +201,10 @@ class ThreadWorker(base.Worker):
             acceptor = partial(self.accept, server)
             self.poller.register(sock, selectors.EVENT_READ, acceptor)
 
+        # never wait longer between two notify() calls than the arbiter allows
+        # (self.timeout is half of the configured timeout, 0 means no timeout)
+        tick = min(1.0, self.timeout or 1.0)
+
         while self.alive:
             # notify the arbiter we are alive
             self.notify()
@@ -208,7 +212,7 @@ class ThreadWorker(base.Worker):
             # can we accept more connections?
             if self.nr_conns < self.worker_connections:
                 # wait for an event
-                events = self.poller.select(1.0)
+                events = self.poller.select(tick)
                 for key, _ in events:
                     callback = key.data
                     callback(key.fileobj)
@@ -218,7 +222,7 @@ class ThreadWorker(base.Worker):
                                       return_when=futures.FIRST_COMPLETED)
             else:
                 # wait for a request to finish
-                result = futures.wait(self.futures, timeout=1.0,
+                result = futures.wait(self.futures, timeout=tick,
                                       return_when=futures.FIRST_COMPLETED)
 
             # clean up finished requests
